@@ -91,6 +91,7 @@ def is_errspan(f):
 ASSUME_A = [
     "regex-automata/regex-syntax give the meaning of a single pattern (reference automata are single-pattern anchored all-matches DFAs built from the pattern as written; literals are hand-built chains)",
     "priorities are the captured ones (their correctness is C09)",
+    "the textbook meaning of patterns (Regex.tla Matches) is compared with the real lexers on the enumerated AST fragment only (RegexAgree); beyond it regex-syntax/regex-automata are trusted",
     "definitions are those of the corpus (shape corpus + seeded random + definitions extracted from the repository tests)",
     "within a byte block, the bytes not instantiated by the replay behave like the instantiated ones in the compiled code",
 ]
@@ -106,7 +107,11 @@ def check_C01(tier, seed, rest):
     st = stages_run("base", base_corpus(tier, seed), tier)
     drift = ["after pass '%s' of Graph::new the graph of %s violates %s at path %s" % (x["stage"], x["def"], x["tag"], x["path"]) for x in st["viol"][:8]]
     drift += drift_lines(b, None)
-    cov = a_coverage(r, {"graph_pass_snapshots_checked": st["graphs"], "graph_pass_states": st["tlc"]["distinct"], "graph_pass_violations": st["n_viol"],
+    import front
+    ra = front.regex_agree_run(tier, seed)
+    v += ra["findings"]
+    cov = a_coverage(r, {"regex_agree": {k: ra[k] for k in ("patterns", "accepted", "words", "states")}, "regex_agree_samples": ra["samples"][:2],
+                         "graph_pass_snapshots_checked": st["graphs"], "graph_pass_states": st["tlc"]["distinct"], "graph_pass_violations": st["n_viol"],
                          "graphlex_model_of_generated_code": b.get("graphlex"), "sequence_level_behaviours_replayed": b["behaviours"]})
     cov["states"] += st["tlc"]["distinct"] + (b["graphlex"]["distinct"] if b.get("graphlex") else 0)
     cov["transitions"] += st["tlc"]["states"] + (b["graphlex"]["states"] if b.get("graphlex") else 0)
